@@ -9,6 +9,7 @@ import vcommon as V
 from checks import seqcommon
 
 TRUSTED = ['Lean 4 kernel', 'translator extract/translate.py (mi_segment_commit_mask, _mi_align_up/_mi_align_down; validated against the compiled functions in C16\'s translator validation)',
+           'extract/translate.py for mi_arena_purge_range in Gen/Loops.lean (nested while loops -> whileN), validated against the running function (harness/c07 prange -> Driver/C13pr)',
            'translators extract/masktr.py (mi_segment_purge) and extract/arenatr.py (mi_arena_purge, mi_arena_schedule_purge) with their hand-written preludes Gen/CommitPrelude.lean, Gen/ArenaPrelude.lean (bitmap primitives and OS calls interpreted on unit / block ranges); validated step by step against the running functions by the C07 check',
            'the models of C01/C03/C04/C05/C12 do not mention options: their theorems hold for every setting; what options change (which ranges get committed / purged / recommitted, arena use) is proved for the range arithmetic only and searched by the option-row oracle for the rest',
            'hardware accessibility is observed, not proved: SIGSEGV in the MI_DEBUG build, zeroed contents in the release build']
